@@ -2,5 +2,9 @@ import GontainerModel.Props.C02
 #print axioms GM.C02.chains_pinned
 #print axioms GM.C02.resolve_classifies
 #print axioms GM.C02.args_order_preserved
+#print axioms GM.C02.fields_sorted_by_name
+#print axioms GM.C02.calls_order_preserved
+#print axioms GM.C02.call_args_preserved
+#print axioms GM.C02.service_parts
 #print axioms GM.C02.scope_mapping
 #print axioms GM.C02.todo_short_circuit
